@@ -184,7 +184,7 @@ Fixpoint need (s : stmt) : nat :=
   | SFutAdd _ _ _ _ => 2
   | SRegAdd _ _ _ => 1
   | SIf _ _ _ _ b => Nat.max (bneed b) 2
-  | SLoop _ _ _ _ _ b | SForeach _ _ _ b => S (bneed b)
+  | SLoop _ _ _ _ _ _ b | SForeach _ _ _ b => S (bneed b)
   | SLoopUntil _ _ b _ _ cl => S (Nat.max (bneed b) (Nat.max 1 (bneed cl)))
   | SEpr k b => epr_need k (bneed b)
   | _ => 0
@@ -230,7 +230,7 @@ Proof.
   - destruct (low_ix ix st) as [ix'|e]; cbn [bind] in H; [|discriminate].
     destruct (take st) as [[t s1]|e] eqn:Ht; cbn [bind] in H; [|discriminate].
     inversion H; subst. right. exists t. auto.
-  - destruct (alook r (l_rf st)); inversion H; subst. left; auto.
+  - destruct (rf_lookup r st); inversion H; subst. left; auto.
   - destruct (alook v (l_lv st)); inversion H; subst. left; auto.
 Qed.
 
@@ -243,7 +243,7 @@ Proof.
       inversion H; subst. apply take_err in Ht. destruct Ht as [_ Ht]. lia.
     + inversion H; subst. destruct ix; cbn [low_ix] in Hix; [discriminate|].
       destruct (alook v (l_lv st)); [discriminate|]. inversion Hix. discriminate.
-  - destruct (alook r (l_rf st)); [discriminate|]. inversion H. discriminate.
+  - destruct (rf_lookup r st); [discriminate|]. inversion H. discriminate.
   - destruct (alook v (l_lv st)); [discriminate|]. inversion H. discriminate.
 Qed.
 
@@ -311,12 +311,12 @@ Qed.
 
 (* ------------------------------------------------------------------ the main induction *)
 Definition stmt_ok (fd : bool) (s : stmt) : Prop :=
-  forall st, match lower_stmt fd s st with
+  plain s = true -> forall st, match lower_stmt fd s st with
              | Ok (c, st') => good st st' (need s)
              | Err e => oor_ok st (need s) e
              end.
 Definition block_ok (fd : bool) (b : block) : Prop :=
-  forall st, match lower_block fd b st with
+  bplain b = true -> forall st, match lower_block fd b st with
              | Ok (c, st') => good st st' (bneed b)
              | Err e => oor_ok st (bneed b) e
              end.
@@ -340,8 +340,11 @@ Lemma low_meas_good : forall q ip keep st m c st1,
 Proof.
   intros q ip keep st m c st1 H. unfold low_meas in H.
   destruct (qubit_id q st) as [id|e]; cbn [bind] in H; [|discriminate].
-  unfold take_m in H. destruct (first_false (l_mused st) 0) as [k|]; cbn [bind] in H; [|discriminate].
-  inversion H; subst. destruct ip, keep; unfold same_ap, deactivate; cbn; auto.
+  unfold take_m in H. destruct keep.
+  - destruct (first_false (orb_list (l_mused st) (l_mscr st)) 0) as [k|]; cbn [bind] in H; [|discriminate].
+    inversion H; subst. destruct ip; unfold same_ap, deactivate; cbn; auto.
+  - destruct (first_false (l_mused st) 0) as [k|]; cbn [bind] in H; [|discriminate].
+    inversion H; subst. destruct ip; unfold same_ap, deactivate; cbn; auto.
 Qed.
 
 Lemma low_meas_err : forall q ip keep st e,
@@ -349,8 +352,11 @@ Lemma low_meas_err : forall q ip keep st e,
 Proof.
   intros q ip keep st e H. unfold low_meas in H.
   unfold qubit_id in H. destruct (alook q (l_q st)); cbn [bind] in H.
-  - unfold take_m in H. destruct (first_false (l_mused st) 0); cbn [bind] in H; [discriminate|].
-    inversion H. discriminate.
+  - unfold take_m in H. destruct keep.
+    + destruct (first_false (orb_list (l_mused st) (l_mscr st)) 0); cbn [bind] in H; [discriminate|].
+      inversion H. discriminate.
+    + destruct (first_false (l_mused st) 0); cbn [bind] in H; [discriminate|].
+      inversion H. discriminate.
   - inversion H. discriminate.
 Qed.
 
@@ -377,7 +383,7 @@ Proof.
   induction n as [|n IH]; intros st i; cbn [epr_arrays_at]; [split; reflexivity|].
   destruct (IH (mkL (l_act st) (l_peak st) (l_mused st) (l_q st) (S (l_next st))
                     (l_decl st ++ [(l_next st, 2, if seq && Nat.eqb i 1 then Some [Some 0%Z; Some 0%Z] else None)])
-                    (l_ret st) (l_rf st) (l_lv st) ((l_next st, 2) :: l_len st)) (S i)) as [A B].
+                    (l_ret st) (l_rf st) (l_lv st) ((l_next st, 2) :: l_len st) (l_mscr st)) (S i)) as [A B].
   split; [rewrite A|rewrite B]; reflexivity.
 Qed.
 
@@ -387,39 +393,40 @@ Proof. unfold oor_ok, same_ap. intros a b n e [E _] H. rewrite <- E. exact H. Qe
 Theorem lower_ok_all : forall fd, (forall s, stmt_ok fd s) /\ (forall b, block_ok fd b).
 Proof.
   intro fd. apply stmt_block_ind; unfold stmt_ok, block_ok.
-  - (* SNewQubit *) intros q st. cbn [lower_stmt].
+  - (* SNewQubit *) intros q _ st. cbn [lower_stmt].
     destruct (alook q (l_q st)); [oor_trivial|]. apply same_good. unfold same_ap; cbn; auto.
-  - (* SGate *) intros g q st. cbn [lower_stmt].
+  - (* SGate *) intros g q _ st. cbn [lower_stmt].
     destruct (qubit_id q st) eqn:E; cbn [bind]; [apply good_refl|intros _ _; eapply qubit_id_err; eauto].
-  - (* SRot *) intros ax q n d st. cbn [lower_stmt].
+  - (* SRot *) intros ax q n d _ st. cbn [lower_stmt].
     destruct (qubit_id q st) eqn:E; cbn [bind]; [apply good_refl|intros _ _; eapply qubit_id_err; eauto].
-  - (* STwo *) intros t q1 q2 st. cbn [lower_stmt].
+  - (* STwo *) intros t q1 q2 _ st. cbn [lower_stmt].
     destruct (qubit_id q1 st) eqn:E1; cbn [bind]; [|intros _ _; eapply qubit_id_err; eauto].
     destruct (qubit_id q2 st) eqn:E2; cbn [bind]; [apply good_refl|intros _ _; eapply qubit_id_err; eauto].
-  - (* SMeasFut *) intros q ip a ix st. cbn [lower_stmt].
+  - (* SMeasFut *) intros q ip a ix _ st. cbn [lower_stmt].
     destruct (low_ix ix st) eqn:Ei; cbn [bind]; [|intros _ _; eapply low_ix_err; eauto].
     destruct (low_meas q ip false st) as [[[m c] st1]|e] eqn:Em; cbn [bind].
     + apply same_good. eapply low_meas_good; eauto.
     + intros _ _. eapply low_meas_err; eauto.
-  - (* SMeasNew *) intros q ip a st. cbn [lower_stmt].
+  - (* SMeasNew *) intros q ip a _ st. cbn [lower_stmt].
     destruct (declare a 1 None st) as [st0|e] eqn:Ed; cbn [bind]; [|intros _ _; eapply declare_err; eauto].
     destruct (low_meas q ip false st0) as [[[m c] st1]|e] eqn:Em; cbn [bind].
     + apply same_good. apply low_meas_good in Em. apply declare_same in Ed.
       unfold same_ap in *. destruct Em, Ed. split; congruence.
     + intros _ _. eapply low_meas_err; eauto.
-  - (* SMeasReg *) intros q ip r st. cbn [lower_stmt].
+  - (* SMeasReg *) intros q ip r _ st. cbn [lower_stmt].
+    destruct (alook r (l_rf st)); [oor_trivial|].
     destruct (low_meas q ip true st) as [[[m c] st1]|e] eqn:Em; cbn [bind].
     + apply same_good. apply low_meas_good in Em. unfold same_ap in *; cbn; auto.
     + intros _ _. eapply low_meas_err; eauto.
-  - (* SFree *) intros q st. cbn [lower_stmt].
+  - (* SFree *) intros q _ st. cbn [lower_stmt].
     destruct (qubit_id q st) eqn:E; cbn [bind]; [|intros _ _; eapply qubit_id_err; eauto].
     apply same_good. destruct fd; unfold same_ap, deactivate; cbn; auto.
-  - (* SNewArray *) intros a len init st. cbn [lower_stmt].
+  - (* SNewArray *) intros a len init _ st. cbn [lower_stmt].
     destruct (Nat.eqb _ 0); [oor_trivial|].
     destruct (declare a _ init st) as [st1|e] eqn:Ed; cbn [bind].
     + apply same_good. eapply declare_same; eauto.
     + intros _ _. eapply declare_err; eauto.
-  - (* SFutAdd *) intros a ix o m st. cbn [lower_stmt need].
+  - (* SFutAdd *) intros a ix o m _ st. cbn [lower_stmt need].
     destruct (low_ix ix st) eqn:Ei; cbn [bind]; [|intros _ _; eapply low_ix_err; eauto].
     destruct (take st) as [[t st1]|e] eqn:Ht; cbn [bind].
     + destruct (low_src o st1) as [[[[lo y] ts] st2]|e] eqn:Hs; cbn [bind].
@@ -433,13 +440,15 @@ Proof.
         -- apply take_len_count in Ht. destruct Ht as [-> _]. exact Hl.
         -- apply take_len_count in Ht. destruct Ht as [_ ->]. lia.
     + intros Hl Hc. apply take_err in Ht. destruct Ht as [_ Ht]. unfold NREGS in *. lia.
-  - (* SRegAdd *) intros r o m st. cbn [lower_stmt need].
-    destruct (alook r (l_rf st)); [|oor_trivial].
+  - (* SRegAdd *) intros r o m _ st. cbn [lower_stmt need].
+    destruct (rf_lookup r st) as [[[] k]|]; try oor_trivial.
     destruct (low_src o st) as [[[[lo y] ts] st1]|e] eqn:Hs; cbn [bind].
     + apply held_release. eapply low_src_held; eauto.
     + eapply low_src_err; eauto.
-  - (* SIf *) intros c cb x y body IH st. cbn [lower_stmt need].
-    specialize (IH st).
+  - (* SNewReg *) intros r init Hp. discriminate.
+  - (* SUAdd *) intros r o m Hp. discriminate.
+  - (* SIf *) intros c cb x y body IH Hp st. cbn [plain] in Hp. cbn [lower_stmt need].
+    specialize (IH Hp st).
     destruct (lower_block fd body st) as [[cbody st1]|e]; cbn [bind].
     + destruct (is_nil cbody).
       * eapply good_weaken; [exact IH|lia].
@@ -456,7 +465,9 @@ Proof.
                 destruct (held_count _ _ _ Hhx) as [Hl2 Hc2]; [congruence|lia] ]).
         -- intros Hl Hc. apply low_cval_err in Hx. apply Hx; [congruence|lia].
     + intros Hl Hc. apply IH; [exact Hl|lia].
-  - (* SLoop *) intros cb v start stop step body IH st. cbn [lower_stmt need].
+  - (* SLoop *) intros cb v oreg start stop step body IH Hp st. destruct oreg; [discriminate|].
+    cbn [plain] in Hp. specialize (IH Hp). cbn [lower_stmt need].
+    destruct (alook v (l_lv st)); [oor_trivial|].
     destruct (take st) as [[r st1]|e] eqn:Ht; cbn [bind].
     + specialize (IH (bind_lvr v r st1)).
       destruct (lower_block fd body (bind_lvr v r st1)) as [[cbody st2]|e]; cbn [bind].
@@ -468,8 +479,9 @@ Proof.
       * intros Hl Hc. apply take_len_count in Ht. destruct Ht as [Hl1 Hc1].
         apply IH; cbn [bind_lvr with_lvs l_act]; [congruence|lia].
     + intros Hl Hc. apply take_err in Ht. destruct Ht as [_ Ht]. unfold NREGS in *. lia.
-  - (* SForeach *) intros enum v a body IH st. cbn [lower_stmt need].
+  - (* SForeach *) intros enum v a body IH Hp st. cbn [plain] in Hp. specialize (IH Hp). cbn [lower_stmt need].
     destruct (alook a (l_len st)); [|oor_trivial].
+    destruct (alook v (l_lv st)); [oor_trivial|].
     destruct (take st) as [[r st1]|e] eqn:Ht; cbn [bind].
     + specialize (IH (bind_lvr v r st1)).
       destruct (lower_block fd body (bind_lvr v r st1)) as [[cbody st2]|e]; cbn [bind].
@@ -481,7 +493,9 @@ Proof.
       * intros Hl Hc. apply take_len_count in Ht. destruct Ht as [Hl1 Hc1].
         apply IH; cbn [bind_lvr with_lvs l_act]; [congruence|lia].
     + intros Hl Hc. apply take_err in Ht. destruct Ht as [_ Ht]. unfold NREGS in *. lia.
-  - (* SLoopUntil *) intros v maxit body IHb cx bound cleanup IHc st. cbn [lower_stmt need].
+  - (* SLoopUntil *) intros v maxit body IHb cx bound cleanup IHc Hp st. cbn [plain] in Hp.
+    apply andb_prop in Hp. destruct Hp as [Hp1 Hp2]. specialize (IHb Hp1). specialize (IHc Hp2). cbn [lower_stmt need].
+    destruct (alook v (l_lv st)); [oor_trivial|].
     destruct (take st) as [[r st1]|e] eqn:Ht; cbn [bind].
     + specialize (IHb (bind_lvr v r st1)).
       destruct (take_len_count _ _ _ Ht) as [Hl1 Hc1].
@@ -508,7 +522,7 @@ Proof.
            ++ intros Hl Hc. apply low_cval_err in Hx. apply Hx; [congruence|]. rewrite Hc2, Hc1. lia.
       * intros Hl Hc. apply IHb; cbn [bind_lvr with_lvs l_act]; [congruence|lia].
     + intros Hl Hc. apply take_err in Ht. destruct Ht as [_ Ht]. unfold NREGS in *. lia.
-  - (* SEpr *) intros k body IH st. cbn [lower_stmt need]. destruct k; cbn [epr_need].
+  - (* SEpr *) intros k body IH Hp st. cbn [plain] in Hp. specialize (IH Hp). cbn [lower_stmt need]. destruct k; cbn [epr_need].
     + destruct body; [apply same_good; apply epr_arrays_same|oor_trivial].
     + destruct body; [|oor_trivial].
       assert (Sa := epr_arrays_same 2 false st).
@@ -581,10 +595,11 @@ Proof.
              [eapply good_bracket; [exact H1|eapply good_trans; [exact IH|eapply transient_facts; exact E3]]|lia].
         -- intros Hl Hc. apply transient_err in E3. destruct E3 as [_ E3]. unfold NREGS in *. lia.
       * intros Hl Hc. apply IH; [congruence|lia].
-  - (* SFlush *) intro st. cbn [lower_stmt]. oor_trivial.
-  - (* BNil *) intro st. cbn [lower_block]. apply good_refl.
-  - (* BCons *) intros s IHs b IHb st. cbn [lower_block bneed].
-    specialize (IHs st).
+  - (* SFlush *) intros _ st. cbn [lower_stmt]. oor_trivial.
+  - (* BNil *) intros _ st. cbn [lower_block]. apply good_refl.
+  - (* BCons *) intros s IHs b IHb Hp st. cbn [bplain] in Hp. apply andb_prop in Hp. destruct Hp as [Hp1 Hp2].
+    specialize (IHb Hp2). cbn [lower_block bneed].
+    specialize (IHs Hp1 st).
     destruct (lower_stmt fd s st) as [[c1 st1]|e]; cbn [bind].
     + specialize (IHb st1). destruct (good_len_count _ _ _ IHs) as [L C].
       destruct (lower_block fd b st1) as [[c2 st2]|e]; cbn [bind].
@@ -594,36 +609,36 @@ Proof.
 Qed.
 
 (* ------------------------------------------------------------------ the theorems of C14 on statements *)
-Theorem active_restored : forall fd s st c st',
+Theorem active_restored : forall fd s st c st', plain s = true ->
   lower_stmt fd s st = Ok (c, st') -> l_act st' = l_act st.
 Proof.
-  intros fd s st c st' H. destruct (lower_ok_all fd) as [A _].
-  specialize (A s st). rewrite H in A. exact (proj1 A).
+  intros fd s st c st' Hp H. destruct (lower_ok_all fd) as [A _].
+  specialize (A s Hp st). rewrite H in A. exact (proj1 A).
 Qed.
 
-Theorem active_restored_block : forall fd b st c st',
+Theorem active_restored_block : forall fd b st c st', bplain b = true ->
   lower_block fd b st = Ok (c, st') -> l_act st' = l_act st.
 Proof.
-  intros fd b st c st' H. destruct (lower_ok_all fd) as [_ A].
-  specialize (A b st). rewrite H in A. exact (proj1 A).
+  intros fd b st c st' Hp H. destruct (lower_ok_all fd) as [_ A].
+  specialize (A b Hp st). rewrite H in A. exact (proj1 A).
 Qed.
 
-Theorem peak_bound : forall fd s st c st',
+Theorem peak_bound : forall fd s st c st', plain s = true ->
   lower_stmt fd s st = Ok (c, st') ->
   l_peak st' <= Nat.max (l_peak st) (count_true (l_act st) + need s) /\
   need s <= 3 * depth s + 4 /\ (noepr s = true -> need s <= depth s + 2).
 Proof.
-  intros fd s st c st' H. destruct (lower_ok_all fd) as [A _].
-  specialize (A s st). rewrite H in A. destruct A as (_ & _ & A).
+  intros fd s st c st' Hp H. destruct (lower_ok_all fd) as [A _].
+  specialize (A s Hp st). rewrite H in A. destruct A as (_ & _ & A).
   split; [exact A|]. split; [apply need_le_depth|apply need_le_depth_noepr].
 Qed.
 
-Theorem lower_no_oor : forall fd s st,
+Theorem lower_no_oor : forall fd s st, plain s = true ->
   List.length (l_act st) = NREGS -> count_true (l_act st) + need s <= NREGS ->
   lower_stmt fd s st <> Err EOutOfRegs.
 Proof.
-  intros fd s st Hl Hc E. destruct (lower_ok_all fd) as [A _].
-  specialize (A s st). rewrite E in A. exact (A Hl Hc eq_refl).
+  intros fd s st Hp Hl Hc E. destruct (lower_ok_all fd) as [A _].
+  specialize (A s Hp st). rewrite E in A. exact (A Hl Hc eq_refl).
 Qed.
 
 (* ------------------------------------------------------------------ flush and whole programs *)
@@ -662,23 +677,24 @@ Qed.
    initialisation loop of a flush *)
 Definition top_need (p : block) : nat := Nat.max (bneed p) 1.
 
-Lemma lower_top_ok : forall fd p acc st,
+Lemma lower_top_ok : forall fd p acc st, bplain p = true ->
   match lower_top fd p acc st with
   | Ok (bs, st') => good st st' (top_need p)
   | Err e => oor_ok st (top_need p) e
   end.
 Proof.
   intros fd p. unfold top_need.
-  induction p as [|s r IH]; intros acc st.
+  induction p as [|s r IH]; intros acc st Hp.
   - cbn [lower_top]. apply good_refl.
-  - destruct (lower_ok_all fd) as [A _]. specialize (A s st).
+  - cbn [bplain] in Hp. apply andb_prop in Hp. destruct Hp as [Hp1 Hp2].
+    destruct (lower_ok_all fd) as [A _]. specialize (A s Hp1 st).
     assert (Hgen : forall (Hs : s <> SFlush),
       match (let* (c, st1) := lower_stmt fd s st in lower_top fd r (acc ++ c) st1) with
       | Ok (bs, st') => good st st' (Nat.max (bneed (BCons s r)) 1)
       | Err e => oor_ok st (Nat.max (bneed (BCons s r)) 1) e
       end).
     { intros _. cbn [bneed]. destruct (lower_stmt fd s st) as [[c st1]|e]; cbn [bind].
-      - specialize (IH (acc ++ c) st1). destruct (good_len_count _ _ _ A) as [L C].
+      - specialize (IH (acc ++ c) st1 Hp2). destruct (good_len_count _ _ _ A) as [L C].
         destruct (lower_top fd r (acc ++ c) st1) as [[bs st2]|e].
         + eapply good_weaken; [eapply good_trans; [exact A|exact IH]|lia].
         + intros Hl Hc. apply IH; [congruence|lia].
@@ -688,7 +704,7 @@ Proof.
     cbn [lower_top bneed need].
     assert (F := lower_flush_ok acc st).
     destruct (lower_flush acc st) as [[b st1]|e]; cbn [bind].
-    + specialize (IH [] st1). destruct (good_len_count _ _ _ F) as [L C].
+    + specialize (IH [] st1 Hp2). destruct (good_len_count _ _ _ F) as [L C].
       destruct (lower_top fd r [] st1) as [[rest st2]|e]; cbn [bind].
       * eapply good_weaken; [eapply good_trans; [exact F|exact IH]|lia].
       * intros Hl Hc. apply IH; [congruence|lia].
@@ -697,37 +713,37 @@ Qed.
 
 (* any sequence of completed operations, of any length, with flushes anywhere:
    no register is active at top level *)
-Theorem active_reachable : forall fd p bs st,
+Theorem active_reachable : forall fd p bs st, bplain p = true ->
   lower_prog fd p = Ok (bs, st) -> l_act st = repeat false NREGS.
 Proof.
-  intros fd p bs st H. unfold lower_prog in H.
-  assert (A := lower_top_ok fd p [] l0). rewrite H in A. exact (proj1 A).
+  intros fd p bs st Hp H. unfold lower_prog in H.
+  assert (A := lower_top_ok fd p [] l0 Hp). rewrite H in A. exact (proj1 A).
 Qed.
 
 (* compiling never runs out of registers because of finished operations: only the
    nesting depth of the deepest statement matters, not the length of the program *)
-Theorem lower_prog_no_oor : forall fd p,
+Theorem lower_prog_no_oor : forall fd p, bplain p = true ->
   3 * bdepth p + 4 <= NREGS -> lower_prog fd p <> Err EOutOfRegs.
 Proof.
-  intros fd p Hd E. unfold lower_prog in E.
-  assert (A := lower_top_ok fd p [] l0). rewrite E in A.
+  intros fd p Hp Hd E. unfold lower_prog in E.
+  assert (A := lower_top_ok fd p [] l0 Hp). rewrite E in A.
   apply A; try reflexivity. unfold top_need. cbn.
   destruct need_le_depth as [_ N]. specialize (N p). unfold NREGS in *. lia.
 Qed.
 
-Theorem lower_prog_no_oor_noepr : forall fd p,
+Theorem lower_prog_no_oor_noepr : forall fd p, bplain p = true ->
   bnoepr p = true -> bdepth p + 2 <= NREGS -> lower_prog fd p <> Err EOutOfRegs.
 Proof.
-  intros fd p Hn Hd E. unfold lower_prog in E.
-  assert (A := lower_top_ok fd p [] l0). rewrite E in A.
+  intros fd p Hp Hn Hd E. unfold lower_prog in E.
+  assert (A := lower_top_ok fd p [] l0 Hp). rewrite E in A.
   apply A; try reflexivity. unfold top_need. cbn.
   destruct need_le_depth_noepr as [_ N]. specialize (N p Hn). unfold NREGS in *. lia.
 Qed.
 
-Theorem lower_prog_peak : forall fd p bs st,
+Theorem lower_prog_peak : forall fd p bs st, bplain p = true ->
   lower_prog fd p = Ok (bs, st) -> l_peak st <= Nat.max (bneed p) 1 /\ bneed p <= 3 * bdepth p + 4.
 Proof.
-  intros fd p bs st H. unfold lower_prog in H.
-  assert (A := lower_top_ok fd p [] l0). rewrite H in A. destruct A as (_ & _ & A).
+  intros fd p bs st Hp H. unfold lower_prog in H.
+  assert (A := lower_top_ok fd p [] l0 Hp). rewrite H in A. destruct A as (_ & _ & A).
   cbn in A. split; [exact A|apply need_le_depth].
 Qed.
